@@ -658,6 +658,24 @@ func (m *fzModel) reboot(model *simdisk.FSModel, img map[string][]byte, cut, dra
 			mode = "power-loss:"
 		}
 		cls := m.classifyImage(model.Root, img)
+		if cls == "" {
+			// a metadata file that holds neither version of a rewrite (a torn or zero-filled
+			// extension) may still decode, to garbage: same recorded cause as the undecodable case
+			for _, tb := range m.p.Tables {
+				mp := filepath.Join(model.Root, "fz", tb.Name+".meta")
+				whole := false
+				for _, st := range model.WholeWriteStates(mp) {
+					if bytes.Equal(st, img[mp]) {
+						whole = true
+						break
+					}
+				}
+				if _, ok := img[mp]; ok && !whole {
+					cls = "torn-metadata-file"
+					break
+				}
+			}
+		}
 		if cls == "virtual-tail-beyond-recovered-head" {
 			// The recorded finding is about tail truncations that hide unsynced items. A
 			// table reset (tail truncation beyond the head) in flight at the cut is a
@@ -919,8 +937,10 @@ func (m *fzModel) classifyImage(root string, img map[string][]byte) string {
 	return ""
 }
 
+var pathRe = regexp.MustCompile(`/[^ :]*`)
+
 func errClass(err error) string {
-	s := err.Error()
+	s := pathRe.ReplaceAllString(err.Error(), "PATH")
 	if len(s) > 40 {
 		s = s[:40]
 	}
